@@ -545,6 +545,9 @@ pub fn run(tier: &str) -> i32 {
         );
     }
     if thorough {
+        sweep_table(&st, "C03", &l_spec("L3i"), Ft::F64, &want, PairSet::All);
+    }
+    if thorough {
         sweep_scenarios(&st, &[10_000, 100_000, 1_000_000, 3_000_000], 900, false);
     } else if da {
         sweep_scenarios(&st, &[100_000], 120, true);
